@@ -4,7 +4,7 @@
 (* (files as item sequences, file system, flags, caller defines) and what  *)
 (* the real library returned for its rendering.  The record is judged by   *)
 (* running the specification on the abstract input.  Non-blocking monitor: *)
-(* a rejected record is reported (<<"BAD", id, reasons>>) and the run goes *)
+(* a rejected record is reported ("BAD|id|reasons") and the run goes *)
 (* on; the driver requires the SUMMARY line to account for every record.   *)
 (*                                                                         *)
 (* Record kinds                                                            *)
@@ -74,11 +74,11 @@ Next ==
   /\ LET r == Rec[l]
          v == Judge(r)
      IN /\ IF v = <<>> THEN nbad' = nbad
-           ELSE /\ PrintT(<<"BAD", r.id, v>>)
+           ELSE /\ PrintT("BAD|" \o r.id \o "|" \o ToString(v))
                 /\ nbad' = nbad + 1
         /\ (v = <<>> /\ Dev # {} /\ r.kind = "run" /\ FiredDev(r.env) # {})
-              => PrintT(<<"BAD", "DEV:" \o r.id, ToString(FiredDev(r.env))>>)
+              => PrintT("BAD|DEV:" \o r.id \o "|" \o ToString(FiredDev(r.env)))
         /\ l' = l + 1
-        /\ (l = Len(Rec) => PrintT(<<"SUMMARY", l, nbad'>>))
+        /\ (l = Len(Rec) => PrintT("SUMMARY|" \o ToString(l) \o "|" \o ToString(nbad')))
 Spec == Init /\ [][Next]_<<l, nbad>>
 =============================================================================
